@@ -107,7 +107,7 @@ pub fn gen_history(ch: &mut Chooser, max_steps: usize) -> History {
     let vecs = ["v1", "v2", "v3", "v4"];
     let mut tick = 0;
     for _ in 0..steps {
-        let op = ch.weighted(&[4, 6, 3, 3, 4, 5, 6, 4, 3, 3, 2, 2]);
+        let op = ch.weighted(&[4, 6, 3, 3, 4, 5, 6, 4, 3, 3, 2, 2, 4, 2]);
         match op {
             0 => {
                 // instantiate a counter-like closure
@@ -196,7 +196,8 @@ pub fn gen_history(ch: &mut Chooser, max_steps: usize) -> History {
                 let plain = h.of(|k| matches!(k, Kind::PlainVec(_)));
                 match ch.below(5) {
                     0 => {
-                        h.forms.push(d(n, app("vector", (0..1 + ch.below(3)).map(|i| Expr::Int(i as i32)).collect())));
+                        let len = if ch.chance(1, 2) { 3 } else { 1 + ch.below(3) };
+                        h.forms.push(d(n, app("vector", (0..len).map(|i| Expr::Int(i as i32)).collect())));
                         h.names.push((n.into(), Kind::PlainVec(true)));
                     }
                     1 => {
@@ -326,6 +327,35 @@ pub fn gen_history(ch: &mut Chooser, max_steps: usize) -> History {
                 let a = ch.pick(&vs).clone();
                 let b = ch.pick(&vs).clone();
                 h.forms.push(Form::Expr(app("eqv?", vec![var(&a), var(&b)])));
+            }
+            12 => {
+                // store another (possibly equal-looking) plain vector into a slot of an existing container
+                let cvs = h.of(|k| *k == Kind::ContainerVec);
+                let plain = h.of(|k| matches!(k, Kind::PlainVec(_)));
+                if cvs.is_empty() || plain.is_empty() {
+                    continue;
+                }
+                let c = ch.pick(&cvs).clone();
+                let v = ch.pick(&plain).clone();
+                let slot = ch.below(2) as i32;
+                h.forms.push(Form::Expr(app("vector-set!", vec![var(&c), Expr::Int(slot), var(&v)])));
+                h.label("vector-stored-into-container-slot");
+                // and a fresh vector with the same contents as what the slot may hold
+                if ch.chance(1, 2) {
+                    h.forms.push(Form::Expr(app("vector-set!", vec![var(&c), Expr::Int(slot), app("vector", vec![Expr::Int(0), Expr::Int(1), Expr::Int(2)])])));
+                    tick += 1;
+                    h.forms.push(Form::Expr(app("vector-set!", vec![app("vector-ref", vec![var(&c), Expr::Int(slot)]), Expr::Int(0), sym(&format!("fresh{}", tick))])));
+                }
+            }
+            13 => {
+                // write the value a slot already holds (a no-op on a mutable vector, still an error on a literal)
+                let plain = h.of(|k| matches!(k, Kind::PlainVec(_)));
+                if plain.is_empty() {
+                    continue;
+                }
+                let s = ch.pick(&plain).clone();
+                h.forms.push(Form::Expr(app("vector-set!", vec![var(&s), Expr::Int(0), app("vector-ref", vec![var(&s), Expr::Int(0)])])));
+                h.label("write-back-same-value");
             }
             _ => {
                 // probe: read everything that is live
